@@ -1,7 +1,7 @@
 PROP = {
     "go_test": "TestC12",
     "claimed": True,
-    "level_text": "Kernel-checked theorems (10, closed under the global context): for every endpoint x status x type x ANY right mask x manager/governance/supply flags, the transcribed access decision performs the operation only for a caller meeting the documented requirement (rights from accessgrant.proto, alternatives from the spec), (the code before fix 374f3de02, where a rights-less caller was 'holder of the whole supply' of a zero-supply marker, is refuted by a witness); a MsgTransferRequest goes through only from the admin's own account, under an accepting grant of the source, or as a forced transfer on a marker allowing it, never out of a module/contract-shaped account; over ALL sequences of uses of a grant the total moved per denom never exceeds the original limit and every recipient is on the original allow list (and the pre-fix Accept is refuted by a two-step witness). The theorems are about Gallina transcriptions; each run re-evaluates them against the real message router / marker, authz, bank keepers on ~15,000 (quick) / ~170,000 (thorough) cases inside Coq and evaluates the property's checker on the implementation's own observations.",
+    "level_text": "Kernel-checked theorems (10, closed under the global context): for every endpoint x status x type x ANY right mask x manager/governance/supply flags, the transcribed access decision performs the operation only for a caller meeting the documented requirement (rights from accessgrant.proto, alternatives from the spec), the per-method guard table extracted from the Go source equals the documented one (the code before fix 374f3de02, where a rights-less caller was 'holder of the whole supply' of a zero-supply marker, is refuted by a witness); a MsgTransferRequest goes through only from the admin's own account, under an accepting grant of the source, or as a forced transfer on a marker allowing it, never out of a module/contract-shaped account; over ALL sequences of uses of a grant the total moved per denom never exceeds the original limit and every recipient is on the original allow list (and the pre-fix Accept is refuted by a two-step witness). The theorems are about Gallina transcriptions; each run re-evaluates them against the real message router / marker, authz, bank keepers on ~15,000 (quick) / ~187,000 (thorough) cases inside Coq and evaluates the property's checker on the implementation's own observations.",
     "level_note": "Trusted: Coq kernel + vm_compute; the hand transcriptions Marker/Access.v (decision table + documented table) and Marker/Authz.v, tied to the code by the correspondence run only (bounded by its generators) and by the generated table GenMarkerAccess.v when the translator hook is present; the harness' projection (rights set by writing the marker's access list directly, statuses reached through the real keeper transitions); module/contract accounts characterised by shape (existing, sequence 0, not marker/market/group). No axioms.",
     "technique": "Coq proof (case analysis over the finite table, induction over use sequences) of a Gallina model + differential correspondence evaluated in Coq",
     "coq_files": ["Marker/Access.v", "Marker/Authz.v", "Marker/AccessTable.v", "Gen/GenMarkerAccess.v", "Proofs/MarkerAccessProofs.v", "Proofs/MarkerAccessGenProofs.v", "Corr/CorrBase.v", "Corr/C12.v"],
